@@ -1497,7 +1497,9 @@ pub fn c08(cfg: &Cfg, idx: u64, st: &mut Stats) {
 // ------------------------------------------------------------------- C15
 
 pub fn c15_sizes(cfg: &Cfg) -> u64 {
-    scaled(cfg, 20_000, 2_000_000)
+    // (thorough: 2 000 000 took an hour of 16 cores once re-entrant writers
+    // and the many-builders worlds were in; one million keeps it near 30 min)
+    scaled(cfg, 20_000, 1_000_000)
 }
 
 pub fn c15(cfg: &Cfg, idx: u64, st: &mut Stats) {
